@@ -33,6 +33,8 @@ mod server;
 #[cfg(test)]
 mod test_utils;
 pub mod utils;
+#[cfg(beetswap_verif)]
+pub mod verif;
 mod wantlist;
 
 use crate::client::{ClientBehaviour, ClientConnectionHandler};
@@ -43,6 +45,23 @@ use crate::server::{ServerBehaviour, ServerConnectionHandler};
 
 pub use crate::builder::BehaviourBuilder;
 pub use crate::client::QueryId;
+
+/// Substream type used by connection handlers and incoming streams.
+#[cfg(not(beetswap_verif))]
+pub(crate) type RawStream = libp2p_swarm::Stream;
+#[cfg(beetswap_verif)]
+pub(crate) type RawStream = crate::verif::RawStream;
+
+#[cfg(not(beetswap_verif))]
+#[inline]
+fn raw_stream(stream: libp2p_swarm::Stream) -> RawStream {
+    stream
+}
+#[cfg(beetswap_verif)]
+#[inline]
+fn raw_stream(stream: libp2p_swarm::Stream) -> RawStream {
+    Box::new(stream)
+}
 
 /// [`NetworkBehaviour`] for Bitswap protocol.
 #[derive(Debug)]
@@ -333,8 +352,12 @@ impl<const MAX_MULTIHASH_SIZE: usize> ConnectionHandler for ConnHandler<MAX_MULT
     ) {
         match event {
             ConnectionEvent::FullyNegotiatedOutbound(outbound) => match outbound.info {
-                StreamRequester::Client => self.client_handler.set_stream(outbound.protocol),
-                StreamRequester::Server => self.server_handler.set_stream(outbound.protocol),
+                StreamRequester::Client => self
+                    .client_handler
+                    .set_stream(raw_stream(outbound.protocol)),
+                StreamRequester::Server => self
+                    .server_handler
+                    .set_stream(raw_stream(outbound.protocol)),
             },
             ConnectionEvent::DialUpgradeError(outbound) => match outbound.info {
                 StreamRequester::Client => self.client_handler.stream_allocation_failed(),
@@ -343,7 +366,8 @@ impl<const MAX_MULTIHASH_SIZE: usize> ConnectionHandler for ConnHandler<MAX_MULT
                 }
             },
             ConnectionEvent::FullyNegotiatedInbound(ev) => {
-                let stream = IncomingStream::new(ev.protocol, self.multihasher.clone());
+                let stream =
+                    IncomingStream::new(raw_stream(ev.protocol), self.multihasher.clone());
                 self.incoming_streams.push(stream);
             }
             _ => (),
